@@ -93,6 +93,8 @@ xml_get_val_arr(const uint8_t *xml_data, size_t xml_data_size,
 	    (xml_data + xml_data_size) > (*next_pos)) {
 		TagEnd = (*next_pos);
 		cur_tag = ((TagEnd == xml_data) ? 0 : (tag_arr_count - 1));
+	} else if (NULL != next_pos && (xml_data + xml_data_size) == (*next_pos)) {
+		return (ESPIPE); /* Previous call consumed all data. */
 	} else { /* Not set or Out of range. */
 		TagEnd = xml_data;
 	}
@@ -545,6 +547,8 @@ xml_get_val_ns_arr(const uint8_t *xml_data, size_t xml_data_size,
 	    (xml_data + xml_data_size) > (*next_pos)) {
 		TagEnd = (*next_pos);
 		cur_tag = ((TagEnd == xml_data) ? 0 : (tag_arr_count - 1));
+	} else if (NULL != next_pos && (xml_data + xml_data_size) == (*next_pos)) {
+		return (ESPIPE); /* Previous call consumed all data. */
 	} else { /* Not set or Out of range. */
 		TagEnd = xml_data;
 	}
